@@ -37,6 +37,7 @@ def run(project, rep):
     rep.run(Z.z_r3_writer_shape, project, rep)
     # "parsed back ... date range": the reader gives the .MM minutes of an offset the sign of its hours (Z-R5)
     rep.run(Z.z_r5_offset_sign, project, rep)
+    rep.run(Z.z_r5b_sign_of_zero_hours, project, rep)
     from .. import rules_types as T
     rep.rule("Q-R8", "the identifiers written are the identifiers supplied: the string writers return exactly what passed the length check, nothing clipped (T-R3)")
     rep.run(T.t_r3, project, rep)
